@@ -3,11 +3,15 @@
 from __future__ import annotations
 
 import ast
+import re
 
 from ..cfg import CFG, forward, ordered
 from ..effects import EffectAnalysis
 from ..model import AnalysisError, unparse
+from ..normalize import expanded, single_assignments
 from ..report import RuleResult
+from ._c15_sem import dependency_table, layers, silent_kinds
+from ._c15_sym import Executor
 
 
 def scope_modules(p):
@@ -48,10 +52,23 @@ def make_analysis(ctx):
     BV = p.cls("BaseValidator")
     subs = [S for S in p.subclasses(BV, strict=True)]
 
+    defs_cache: dict = {}
+
     def dynamic(fn, call):
-        # self.validators[val](name, value, validations[val]) in InputValidation.validate
-        f = call.func
-        if isinstance(f, ast.Subscript) and unparse(f.value) == "self.validators":
+        # self.validators[val](name, value, validations[val]) in InputValidation.validate — also through a temporary
+        # (`v = self.validators[val]; v(..)`), `.get(val)`, or an explicit `.validate(..)` / `.__call__(..)` on the element
+        if id(fn.node) not in defs_cache:
+            defs_cache[id(fn.node)] = single_assignments(fn.node)
+        f = expanded(call.func, fn.node, defs_cache[id(fn.node)])
+        if isinstance(f, ast.Attribute) and f.attr in ("validate", "__call__"):
+            f = f.value
+        table = None
+        if isinstance(f, ast.Subscript):
+            table = f.value
+        elif isinstance(f, ast.Call) and isinstance(f.func, ast.Attribute) and f.func.attr == "get" and f.args:
+            table = f.func.value
+        if isinstance(table, ast.Attribute) and table.attr in ("validators", "_validators") and isinstance(table.value, ast.Name) \
+                and table.value.id == fn.self_name:
             out = []
             for S in subs:
                 m = S.lookup("validate")
@@ -63,11 +80,17 @@ def make_analysis(ctx):
     return EffectAnalysis(p, scope=mods, cha_scope=mods, max_depth=6 if ctx.tier == "quick" else 14, dynamic_calls=dynamic)
 
 
+_ACC_GROW = ("append", "extend", "insert", "add", "update", "setdefault", "__setitem__")
+
+
 def _reset_on_every_exit(ctx, fn, K, fld, ana) -> bool:
     """Accumulator idiom: every exit (normal and exceptional) of the entry point
     is reached with self.<fld> reset (re-bound, .clear()ed, or known empty by a
     falsy test) after the last mutation.  Interprocedural through self-calls:
-    each callee is summarised as a transformer of the 'dirty' bit."""
+    each callee is summarised as a transformer of the 'dirty' bit.  Locals that
+    alias the field's current object (`errs = self._errors`) are followed, so the
+    mutation / the emptiness test may go through them; re-binding the field
+    detaches them (they keep the old object)."""
     memo: dict = {}
     mutated = [False]
 
@@ -87,18 +110,24 @@ def _reset_on_every_exit(ctx, fn, K, fld, ana) -> bool:
 
         exc_from_calls = [False]
 
-        def transfer(node, dirty):
+        def transfer(node, state):
+            dirty, al = state
             src = node.ast
             if src is None:
-                return dirty
+                return state
+
+            def is_acc(e):
+                return is_fld(e) or (isinstance(e, ast.Name) and e.id in al)
+
+            def reads_acc(e):
+                return any(is_acc(x) for x in ast.walk(e))
+
             for n in ordered(src):
-                if isinstance(n, ast.Attribute) and is_fld(n) and isinstance(n.ctx, ast.Store):
-                    dirty = False
-                elif isinstance(n, ast.Call) and isinstance(n.func, ast.Attribute):
-                    if is_fld(n.func.value):
+                if isinstance(n, ast.Call) and isinstance(n.func, ast.Attribute):
+                    if is_acc(n.func.value):
                         if n.func.attr == "clear":
                             dirty = False
-                        elif n.func.attr in ("append", "extend", "insert", "add", "update", "__setitem__"):
+                        elif n.func.attr in _ACC_GROW:
                             dirty = True
                             mutated[0] = True
                     elif isinstance(n.func.value, ast.Name) and n.func.value.id == sn and K is not None:
@@ -109,18 +138,48 @@ def _reset_on_every_exit(ctx, fn, K, fld, ana) -> bool:
                             if xd and not _in_try(f, n):
                                 exc_from_calls[0] = True
                             dirty = nd
-                elif isinstance(n, ast.Subscript) and is_fld(n.value) and isinstance(n.ctx, ast.Store):
+                elif isinstance(n, ast.Subscript) and is_acc(n.value) and isinstance(n.ctx, ast.Store):
                     dirty = True
                     mutated[0] = True
+                elif isinstance(n, ast.AugAssign):
+                    if is_acc(n.target):
+                        dirty = True
+                        mutated[0] = True
+                elif isinstance(n, (ast.Assign, ast.AnnAssign)) and n.value is not None:
+                    pairs = []
+                    for t in (n.targets if isinstance(n, ast.Assign) else [n.target]):
+                        if isinstance(t, (ast.Tuple, ast.List)) and isinstance(n.value, (ast.Tuple, ast.List)) and len(t.elts) == len(n.value.elts):
+                            pairs += list(zip(t.elts, n.value.elts))
+                        else:
+                            pairs.append((t, n.value))
+                    # the right-hand sides are evaluated before any target is bound
+                    vals = [(t, is_acc(v), reads_acc(v)) for t, v in pairs]
+                    for t, same, reads in vals:
+                        if is_fld(t):
+                            if same:
+                                continue  # the very object is stored back
+                            if reads:
+                                dirty = True  # self.f = self.f + [..]: grows
+                                mutated[0] = True
+                            else:
+                                dirty = False
+                            al = frozenset()  # the aliases keep the previous object
+                        elif isinstance(t, ast.Name):
+                            al = (al | {t.id}) if same else (al - {t.id})
+                        else:
+                            for x in ast.walk(t):
+                                if isinstance(x, ast.Name) and isinstance(x.ctx, ast.Store):
+                                    al = al - {x.id}
+            state = (dirty, al)
             if node.kind == "test":
                 t = node.ast
-                if is_fld(t):
-                    return {"true": dirty, "false": False, None: dirty}
-                if isinstance(t, ast.UnaryOp) and isinstance(t.op, ast.Not) and is_fld(t.operand):
-                    return {"true": False, "false": dirty, None: dirty}
-            return dirty
+                if is_acc(t):
+                    return {"true": state, "false": (False, al), None: state}
+                if isinstance(t, ast.UnaryOp) and isinstance(t.op, ast.Not) and is_acc(t.operand):
+                    return {"true": (False, al), "false": state, None: state}
+            return state
 
-        IN = forward(g, init, transfer, lambda a, b: a or b)
+        IN = forward(g, (init, frozenset()), transfer, lambda a, b: (a[0] or b[0], a[1] | b[1]))
         # exceptional exit: explicit raise / assert edges only (implicit exceptions of calls inside try
         # bodies are not assumed to escape, DESIGN §2.4)
         xdirty = False
@@ -130,13 +189,30 @@ def _reset_on_every_exit(ctx, fn, K, fld, ana) -> bool:
             out = transfer(pnode, IN[pnode])
             if isinstance(out, dict):
                 out = out.get(lab, out.get(None))
-            xdirty = xdirty or bool(out)
-        res = (bool(IN.get(g.exit, False)), xdirty or exc_from_calls[0])
+            xdirty = xdirty or bool(out[0])
+        res = (bool(IN.get(g.exit, (False, frozenset()))[0]), xdirty or exc_from_calls[0])
         memo[key] = res
         return res
 
     nd, xd = run(fn, False, 0)
     return (not nd) and (not xd) and mutated[0]
+
+
+def _is_grow_store(text: str, fld: str) -> bool:
+    """`self.f += [x]` / `self.f = self.f + [x]` — the accumulator grows by re-binding (same idiom as .append)."""
+    try:
+        st = ast.parse(text).body[0]
+    except SyntaxError:
+        return False
+
+    def is_f(t):
+        return isinstance(t, ast.Attribute) and t.attr == fld and isinstance(t.value, ast.Name)
+
+    if isinstance(st, ast.AugAssign):
+        return is_f(st.target) and isinstance(st.op, (ast.Add, ast.BitOr))
+    if isinstance(st, ast.Assign) and len(st.targets) == 1 and is_f(st.targets[0]) and isinstance(st.value, ast.BinOp) and isinstance(st.value.op, (ast.Add, ast.BitOr)):
+        return is_f(st.value.left) and st.value.left.value.id == st.targets[0].value.id
+    return False
 
 
 def _is_reset_store(text: str, fld: str) -> bool:
@@ -163,11 +239,19 @@ def _is_reset_store(text: str, fld: str) -> bool:
 
 
 def _in_try(f, node) -> bool:
+    """The call sits in a `try` body with handlers, or in a `with suppress(..)` block."""
     for t in ast.walk(f.node):
         if isinstance(t, ast.Try) and t.handlers:
-            for s in t.body:
-                if node in list(ast.walk(s)):
-                    return True
+            body = t.body
+        elif isinstance(t, (ast.With, ast.AsyncWith)) and any(
+                isinstance(it.context_expr, ast.Call) and (getattr(it.context_expr.func, "attr", None) or getattr(it.context_expr.func, "id", None)) == "suppress"
+                for it in t.items):
+            body = t.body
+        else:
+            continue
+        for s in body:
+            if any(x is node for x in ast.walk(s)):
+                return True
     return False
 
 
@@ -193,7 +277,7 @@ def rule_pure(ctx) -> RuleResult:
         for e in sorted(effs, key=lambda e: (e.where, str(e.target))):
             ofn, otarget, otext = e.origin
             # accumulator idiom, judged at the outermost function of the owning class on the call chain
-            if otarget[0] == "field" and otarget[2] == 0 and ofn.cls is not None and (e.kind == "mutate" or _is_reset_store(otext, otarget[1])):
+            if otarget[0] == "field" and otarget[2] == 0 and ofn.cls is not None and (e.kind == "mutate" or _is_reset_store(otext, otarget[1]) or _is_grow_store(otext, otarget[1])):
                 owner = next((f for f in e.chain if f.cls is not None and (f.cls is ofn.cls or ofn.cls in f.cls.mro)), ofn)
                 Ko = owner.cls
                 ok = _reset_on_every_exit(ctx, owner, Ko, otarget[1], ana)
@@ -224,6 +308,14 @@ RULES = [rule_pure]
 
 VALIDATION_CALLS = {"validate", "validate_data", "enforce"}
 
+# Constructs of the findings recorded before the stores were described without local spellings: (class, member, field) ->
+# (the store with self / parameters under positional names, the recorded text).  Keeps the recorded keys stable when a
+# parameter or a temporary is renamed.
+_LEGACY_COMMIT = {
+    ("Parameter", "value", "_value"): ("self._value = __arg1__", "self._value = val"),
+    ("InputFile", "data", "geoh5"): ("self.geoh5 = __arg1__['geoh5']", "self.geoh5 = value['geoh5']"),
+}
+
 
 def rule_commit(ctx) -> RuleResult:
     res = RuleResult(
@@ -235,36 +327,71 @@ def rule_commit(ctx) -> RuleResult:
     )
     p = ctx.p
     mods = scope_modules(p)
-    from ..cfg import CFG, forward, ordered
 
-    for fn in p.all_functions():
-        if fn.module not in mods or fn.cls is None or fn.self_name is None:
+    for fn0 in p.all_functions():
+        if fn0.module not in mods or fn0.cls is None or fn0.self_name is None:
             continue
-        if not (fn.kind == "setter" or fn.name.startswith(("set_", "update_"))):
+        if not (fn0.kind == "setter" or fn0.name.startswith(("set_", "update_"))):
             continue
+        # private helpers expanded in place: a validation or a store moved into / out of a helper is seen where it happens
+        fn = ctx.view(fn0)
         sn = fn.self_name
+        defs = single_assignments(fn.node)
+        params = [x for x in fn.params if x != sn]
+
+        def on_self(e):
+            """`e` (aliases and temporaries undone) is self or something reached from self: the attribute name next to self, else None."""
+            e = expanded(e, fn.node, defs)
+            last = None
+            while True:
+                if isinstance(e, ast.Attribute):
+                    last, e = e.attr, e.value
+                elif isinstance(e, ast.Subscript):
+                    e = e.value
+                elif isinstance(e, ast.Call) and isinstance(e.func, ast.Attribute) and e.func.attr in ("get", "setdefault"):
+                    e = e.func.value
+                else:
+                    break
+            if isinstance(e, ast.Name) and e.id == sn:
+                return last or ""
+            return None
 
         def is_validation(n):
             if not (isinstance(n, ast.Call) and isinstance(n.func, ast.Attribute) and n.func.attr in VALIDATION_CALLS):
                 return False
-            root = n.func.value
-            while isinstance(root, (ast.Attribute, ast.Subscript)):
-                root = root.value
-            return isinstance(root, ast.Name) and root.id == sn
+            return on_self(n.func.value) is not None
+
+        def flat(tg):
+            for t in tg:
+                if isinstance(t, (ast.Tuple, ast.List)):
+                    yield from flat(t.elts)
+                elif isinstance(t, ast.Starred):
+                    yield from flat([t.value])
+                else:
+                    yield t
 
         def stores(n):
             out = []
-            if isinstance(n, (ast.Assign, ast.AugAssign, ast.AnnAssign)):
-                tg = n.targets if isinstance(n, ast.Assign) else [n.target]
-                for t in tg:
-                    b = t
-                    sub = False
-                    while isinstance(b, ast.Subscript):
-                        b = b.value
-                        sub = True
-                    if isinstance(b, ast.Attribute) and isinstance(b.value, ast.Name) and b.value.id == sn:
-                        out.append((b.attr, n))
+            if isinstance(n, (ast.Assign, ast.AugAssign, ast.AnnAssign)) and not (isinstance(n, ast.AnnAssign) and n.value is None):
+                for t in flat(n.targets if isinstance(n, ast.Assign) else [n.target]):
+                    if isinstance(t, ast.Name):
+                        continue  # re-binding a local
+                    fld = on_self(t)
+                    if fld:
+                        out.append((fld, n))
             return out
+
+        def construct_text(st, fld):
+            """The store with aliases undone and self / the parameters under positional names (no local spelling)."""
+            e = expanded(st, fn.node, defs)
+            for x in ast.walk(e):
+                if isinstance(x, ast.Name):
+                    x.id = "self" if x.id == sn else f"__arg{params.index(x.id) + 1}__" if x.id in params else x.id
+            text = unparse(e)
+            legacy = _LEGACY_COMMIT.get((fn.cls.name, fn.prop or fn.name, fld))
+            if legacy and text == legacy[0]:
+                return legacy[1]
+            return re.sub(r"__arg(\d+)__", r"<arg\1>", text)[:60]
 
         g = CFG(fn.node)
         a_nodes = [nd for nd in g.nodes if nd.ast is not None and not isinstance(nd.ast, list) and any(is_validation(x) for x in ast.walk(nd.ast))]
@@ -299,26 +426,11 @@ def rule_commit(ctx) -> RuleResult:
         inst = f"{fn.qualname}: {len(a_nodes)} validation call(s)"
         res.inst(inst, nontrivial=True, ok=not bad)
         for fld, st in bad:
-            res.find(fn.cls.name, fn.prop or fn.name, f"stores self.{fld} before validating: {unparse(st)[:60]}",
+            res.find(fn.cls.name, fn.prop or fn.name, f"stores self.{fld} before validating: {construct_text(st, fld)}",
                      f"{fn.module.relpath}:{st.lineno}",
                      f"{fn.qualname} assigns self.{fld} and only afterwards runs the validation that may reject the value: "
                      "a rejected assignment leaves the new value stored")
     return res
-
-
-def _members_read(expr, form_text=None):
-    """Constant member names read from a ui.json form inside `expr`: X.get("m", ..), X["m"], "m" in X, truth(u, n, "m")."""
-    out = []
-    for n in ast.walk(expr):
-        if isinstance(n, ast.Call) and isinstance(n.func, ast.Attribute) and n.func.attr == "get" and n.args and isinstance(n.args[0], ast.Constant):
-            out.append((unparse(n.func.value), n.args[0].value, "get"))
-        elif isinstance(n, ast.Subscript) and isinstance(n.slice, ast.Constant) and isinstance(n.slice.value, str):
-            out.append((unparse(n.value), n.slice.value, "item"))
-        elif isinstance(n, ast.Compare) and isinstance(n.left, ast.Constant) and isinstance(n.left.value, str) and isinstance(n.ops[0], (ast.In, ast.NotIn)):
-            out.append((unparse(n.comparators[0]), n.left.value, "in"))
-        elif isinstance(n, ast.Call) and getattr(n.func, "id", None) == "truth" and len(n.args) == 3 and isinstance(n.args[2], ast.Constant):
-            out.append((f"{unparse(n.args[0])}[{unparse(n.args[1])}]", n.args[2].value, "get"))
-    return out
 
 
 def rule_rules(ctx) -> RuleResult:
@@ -336,65 +448,47 @@ def rule_rules(ctx) -> RuleResult:
     fn = uj.functions.get("dependency_requires_value")
     if fn is None:
         raise AnalysisError("anchor ui_json.utils.dependency_requires_value not found")
-    sel = [n for n in ast.walk(fn.node) if isinstance(n, ast.IfExp) and isinstance(n.body, ast.Constant) and isinstance(n.orelse, ast.Constant)
-           and {n.body.value, n.orelse.value} == {"enabled", "value"}]
-    if not sel:
-        raise AnalysisError("dependency_requires_value: the `enabled`/`value` state selector was not recognised")
-    for s in sel:
-        t = s.test
-        neg = False
-        while isinstance(t, ast.UnaryOp) and isinstance(t.op, ast.Not):
-            neg, t = not neg, t.operand
-        reads = _members_read(t)
-        members = {(m, how) for _, m, how in reads}
-        forms = {f for f, _, _ in reads}
-        on_driver = all("dependency" in f for f in forms)
-        if members == {("optional", "get")} and on_driver and isinstance(t, ast.Call):
-            ok = (s.body.value == "enabled") != neg
-            res.inst(f"dependency_requires_value:{s.lineno} driver state member = 'enabled' iff driver.optional", nontrivial=True, ok=ok)
-            if not ok:
-                res.find("utils", "dependency_requires_value", "the state selector is inverted", f"{uj.relpath}:{s.lineno}",
-                         "an optional driver is read through its value and a checkbox through `enabled`")
-        elif any(m != "optional" or how != "get" for m, how in members) or not on_driver:
-            res.inst(f"dependency_requires_value:{s.lineno} selector consults {sorted(members)}", nontrivial=True, ok=False)
-            res.find("utils", "dependency_requires_value", f"the state selector consults {sorted(m for m, _ in members)} ({unparse(s.test)[:50]})",
-                     f"{uj.relpath}:{s.lineno}",
-                     "whether the driver's state is its `enabled` switch or its boolean `value` must depend on the driver being optional (truthy "
-                     "`optional` member) only: a checkbox carrying a redundant `enabled` member, or a non-optional driver, is read through the wrong member "
-                     "and None is accepted/refused wrongly for the dependent parameter")
-        else:
-            raise AnalysisError(f"dependency_requires_value:{s.lineno}: selector `{unparse(s.test)[:60]}` not recognised")
-    # polarity by dependencyType
-    gates = [n for n in ast.walk(fn.node) if isinstance(n, ast.If) and any(m == "dependencyType" for _, m, _ in _members_read(n.test))]
-    if not gates:
-        raise AnalysisError("dependency_requires_value: dependencyType branch not recognised")
-    for gt in gates:
-        t = gt.test
-        is_enabled_eq = isinstance(t, ast.Compare) and isinstance(t.ops[0], (ast.Eq, ast.NotEq)) and isinstance(t.comparators[0], ast.Constant) and t.comparators[0].value in ("enabled", "disabled")
-        default = next((unparse(c.args[1]) for c in ast.walk(t) if isinstance(c, ast.Call) and getattr(c.func, "attr", None) == "get" and len(c.args) > 1), None)
-        if not is_enabled_eq:
-            raise AnalysisError(f"dependency_requires_value:{gt.lineno}: dependencyType test not recognised")
-        pos_branch = (t.comparators[0].value == "enabled") == isinstance(t.ops[0], ast.Eq)
+    view = ctx.view(fn)
 
-        def negated(block):
-            a = [x for x in block if isinstance(x, ast.Assign)]
-            if len(a) != 1:
-                return None
-            return isinstance(a[0].value, ast.UnaryOp) and isinstance(a[0].value.op, ast.Not)
+    def resolver(call):
+        # helpers of the same module (public or private) that are plain branching code are unfolded in place
+        if isinstance(call.func, ast.Name):
+            r = p.resolve_name(uj, call.func.id)
+            if r and r[0] == "func" and r[1].node is not fn.node and r[1].module is uj and not r[1].node.decorator_list \
+                    and not (r[1].node.args.vararg or r[1].node.args.kwarg) \
+                    and not any(isinstance(x, (ast.For, ast.While, ast.Try, ast.With, ast.Yield, ast.YieldFrom, ast.Lambda, ast.ListComp,
+                                               ast.DictComp, ast.SetComp, ast.GeneratorExp)) for x in ast.walk(r[1].node)):
+                return r[1].node
+        return None
 
-        nb, no = negated(gt.body), negated(gt.orelse)
-        if nb is None or no is None:
-            raise AnalysisError(f"dependency_requires_value:{gt.lineno}: branch assignments not recognised")
-        ok = (nb != no) and (nb is (not pos_branch)) and default in ("'enabled'", None)
-        res.inst(f"dependency_requires_value:{gt.lineno} dependencyType 'enabled' -> driver state, otherwise its negation; default 'enabled'", nontrivial=True, ok=ok)
-        if not ok:
-            res.find("utils", "dependency_requires_value", "dependencyType polarity / default changed", f"{uj.relpath}:{gt.lineno}",
-                     "an 'enabled' dependency must require the value when the driver is on, a 'disabled' one when it is off (default 'enabled')")
+    # (a) decided on the truth table of the function over its elementary conditions (paths unfolded, locals substituted):
+    # independent of layout, local names, guard clauses / accumulators, De Morgan, if-expression vs if-statement
+    def opaque(call):
+        # a project function left as a call (loops, handlers, ...): its result is not understood — fail closed, do not guess
+        f = call.func
+        r = p.resolve_name(uj, f.id) if isinstance(f, ast.Name) else p.resolve_expr(uj, f) if isinstance(f, ast.Attribute) and isinstance(f.value, ast.Name) else None
+        return bool(r and r[0] == "func")
+
+    v = dependency_table(view.node, resolver, opaque)
+    where = fn.where
+    res.inst(f"dependency_requires_value: driver state member = 'enabled' iff driver.optional ({v.paths} paths, conditions {v.leaves})",
+             nontrivial=True, ok=not v.selector)
+    res.inst("dependency_requires_value: dependencyType 'enabled' -> driver state, otherwise its negation; default 'enabled'; an optional "
+             "parameter that is required takes its own `enabled`", nontrivial=True, ok=not (v.polarity or v.other))
+    for construct, why in v.selector:
+        res.find("utils", "dependency_requires_value", construct, where,
+                 "whether the driver's state is its `enabled` switch or its boolean `value` must depend on the driver being optional (truthy "
+                 "`optional` member) only: a checkbox carrying a redundant `enabled` member, or a non-optional driver, is read through the wrong member "
+                 f"and None is accepted/refused wrongly for the dependent parameter — {why}")
+    for construct, why in v.polarity + v.other:
+        res.find("utils", "dependency_requires_value", construct, where,
+                 "an 'enabled' dependency must require the value when the driver is on, a 'disabled' one when it is off (default 'enabled') — " + why)
     # (b) AssociationValidator kinds
     V = p.cls("AssociationValidator")
-    vf = V.methods.get("validate")
-    if vf is None:
+    vf0 = V.methods.get("validate")
+    if vf0 is None:
         raise AnalysisError("anchor AssociationValidator.validate not found")
+    vf = ctx.view(vf0)
 
     def ann_names(a):
         out = set()
@@ -408,41 +502,23 @@ def rule_rules(ctx) -> RuleResult:
         return out - {"None", "list", "uuid", "Optional", "Union"}
 
     vparam = vf.params[2] if len(vf.params) > 2 else "value"
-    arg = next(a for a in vf.node.args.args if a.arg == vparam)
-    kinds = ann_names(arg.annotation)
+    valid_param = vf.params[3] if len(vf.params) > 3 else "valid"
+    args = {a.arg: a for a in vf.node.args.args}
+    if vparam not in args or valid_param not in args:
+        raise AnalysisError("AssociationValidator.validate: (name, value, valid) signature not recognised")
+    kinds = ann_names(args[vparam].annotation)
     ge = p.cls("Workspace").methods.get("get_entity")
     kinds |= ann_names(ge.node.returns) if ge is not None else set()
-    handled = set()
-    silent = False
-    for n in ast.walk(vf.node):
-        if isinstance(n, ast.If):
-            chain, cur = [], n
-            while True:
-                chain.append(cur)
-                if len(cur.orelse) == 1 and isinstance(cur.orelse[0], ast.If):
-                    cur = cur.orelse[0]
-                else:
-                    break
-            tests = [c.test for c in chain]
-            if all(isinstance(t, ast.Call) and getattr(t.func, "id", None) == "isinstance" and unparse(t.args[0]) == vparam for t in tests) \
-                    and cur.orelse and isinstance(cur.orelse[0], ast.Return):
-                silent = True
-                for t in tests:
-                    handled |= ann_names(t.args[1])
-                break
-    if not silent:
-        res.inst("AssociationValidator.validate: no silent fall-through", ok=True)
-    else:
-        def covered(k):
-            kc = p.cls(k) if any(c.name == k for c in p.classes) else None
-            if k in handled:
-                return True
-            return kc is not None and any(getattr(b, "name", None) in handled for b in kc.mro)
-        missing = sorted(k for k in kinds if not covered(k))
-        res.inst(f"AssociationValidator.validate: value kinds {sorted(kinds)} all dispatched before `else: return` (handled {sorted(handled)})", nontrivial=True, ok=not missing)
-        if missing:
-            res.find("AssociationValidator", "validate", f"value kind(s) {missing} fall into the silent `else: return`", vf.where,
-                     f"a {missing[0]} value is accepted without checking that it belongs to the referenced parent / workspace")
+    valid_kinds = ann_names(args[valid_param].annotation)
+    if not kinds or not valid_kinds:
+        raise AnalysisError("AssociationValidator.validate: value / valid kinds not declared")
+    # per kind of value (three-valued isinstance facts; `valid` a parent of its declared kinds): every normal exit passes a
+    # check that inspects the value and can raise — whatever the shape of the dispatch (elif chain, guard clause, helper)
+    missing, npaths = silent_kinds(p, vf.node, vparam, valid_param, sorted(kinds), sorted(valid_kinds))
+    res.inst(f"AssociationValidator.validate: value kinds {sorted(kinds)} all reach the membership check ({npaths} paths)", nontrivial=True, ok=not missing)
+    if missing:
+        res.find("AssociationValidator", "validate", f"value kind(s) {missing} fall into the silent `else: return`", vf0.where,
+                 f"a {missing[0]} value is accepted without checking that it belongs to the referenced parent / workspace")
     return res
 
 
@@ -457,38 +533,67 @@ def rule_stale(ctx) -> RuleResult:
     )
     p = ctx.p
     IF = p.cls("InputFile")
-    st = IF.props["ui_json"].setter
+    prop = IF.props.get("ui_json")
+    if prop is None or prop.setter is None:
+        raise AnalysisError("anchor InputFile.ui_json setter not found")
+    st0 = prop.setter
+    st = ctx.view(st0)
     sn = st.self_name or "self"
-    inferred = {n.targets[0].id for n in ast.walk(st.node) if isinstance(n, ast.Assign) and isinstance(n.targets[0], ast.Name)
-                and any(isinstance(c, ast.Call) and getattr(c.func, "attr", None) == "infer_validations" for c in ast.walk(n.value))}
-    if not inferred:
+
+    def is_inferred(e):
+        return any(isinstance(c, ast.Call) and (getattr(c.func, "attr", None) or getattr(c.func, "id", None)) in ("infer_validations", "_validations_from_uijson")
+                   for c in ast.walk(e))
+
+    if not is_inferred(st.node):
         raise AnalysisError("InputFile.ui_json setter: call to infer_validations not found")
-    # loop variables bound from the inferred table
-    for lp in ast.walk(st.node):
-        if isinstance(lp, ast.For) and any(isinstance(x, ast.Name) and x.id in inferred for x in ast.walk(lp.iter)):
-            names = [t.id for t in ast.walk(lp.target) if isinstance(t, ast.Name)]
-            new_rules = names[-1] if names else None
-            stores = [n for n in ast.walk(lp) if isinstance(n, ast.Assign) and isinstance(n.targets[0], ast.Subscript) and unparse(n.targets[0].value).startswith(f"{sn}.")]
-            for stt in stores:
-                field = unparse(stt.targets[0].value)
-                # value's definition(s) inside the loop
-                defs = [n.value for n in ast.walk(lp) if isinstance(n, ast.Assign) and isinstance(n.targets[0], ast.Name) and n.targets[0].id == unparse(stt.value)]
-                carried = False
-                for d in defs + [stt.value]:
-                    if isinstance(d, ast.Dict) and None in d.keys:
-                        spreads = [unparse(v) for k, v in zip(d.keys, d.values) if k is None]
-                        # later spreads win: previous content of the same field placed after the new rules
-                        idx_old = [i for i, sp in enumerate(spreads) if sp.startswith(field)]
-                        idx_new = [i for i, sp in enumerate(spreads) if sp == new_rules]
-                        if idx_old and idx_new and max(idx_old) > min(idx_new):
-                            carried = True
-                    elif any(isinstance(c, ast.Call) and getattr(c.func, "attr", None) == "update" and any(unparse(a).startswith(field) for a in c.args) for c in ast.walk(d)):
-                        carried = True
-                res.inst(f"InputFile.ui_json setter: {field}[...] = {unparse(stt.value)[:30]} (rules from the new form win)", nontrivial=True, ok=not carried)
-                if carried:
-                    res.find("InputFile", "ui_json", f"previous content of {field} overrides the rules inferred from the new form", f"{st.module.relpath}:{stt.lineno}",
-                             f"{field}[key] keeps what an earlier form put there (the setter cannot tell inferred rules from user-supplied ones): after the form of "
-                             "a parameter is replaced, values are still judged by the old form's types / association / optional rules")
+
+    def field_of(target):
+        """self.<f>, self.<f>[..]..  ->  f (the property name when <f> is the private field backing a property)."""
+        b = target
+        while isinstance(b, ast.Subscript):
+            b = b.value
+        if isinstance(b, ast.Attribute) and isinstance(b.value, ast.Name) and b.value.id == sn:
+            return public(b.attr)
+        return None
+
+    def public(attr):
+        return attr[1:] if attr.startswith("_") and attr[1:] in IF.props else attr
+
+    def reads_field(e, fld):
+        return any(isinstance(x, ast.Attribute) and isinstance(x.value, ast.Name) and x.value.id == sn and public(x.attr) == fld for x in ast.walk(e))
+
+    # every path of the setter, locals substituted (loop variables are elements of what is iterated): what is stored into a field of
+    # self, layer by layer of the merged mapping — independent of the names of the locals, of aliases of self.<field>, of the
+    # merge idiom ({**a, **b} / dict(a, **b) / a | b / copy + update) and of where the merge is computed
+    per_field: dict = {}
+    for oc in Executor().run(st.node):
+        stores = [(t, v, stmt) for kind, t, v, stmt in oc.events if kind == "store"]
+        # x.update(b) on (an element of) a field of self: the field keeps its content, b on top
+        for kind, c, _, stmt in oc.events:
+            if kind == "call" and isinstance(c.func, ast.Attribute) and c.func.attr == "update" and len(c.args) == 1:
+                stores.append((c.func.value, ast.Dict(keys=[None, None], values=[c.func.value, c.args[0]]), stmt))
+        for t, v, stmt in stores:
+            fld = field_of(t)
+            if fld is None or v is None or not is_inferred(v):
+                continue
+            ls = layers(v)
+            idx_old = [i for i, x in enumerate(ls) if reads_field(x, fld) and not is_inferred(x)]
+            idx_new = [i for i, x in enumerate(ls) if is_inferred(x)]
+            carried = bool(idx_old and idx_new and max(idx_old) > min(idx_new))
+            rec = per_field.setdefault(fld, {"n": 0, "carried": None})
+            rec["n"] += 1
+            if carried and rec["carried"] is None:
+                rec["carried"] = stmt
+    for fld, rec in sorted(per_field.items()):
+        field = f"self.{fld}"
+        carried = rec["carried"] is not None
+        res.inst(f"InputFile.ui_json setter: {field} receives the rules inferred from the new form on {rec['n']} path store(s) (rules from the new form win)",
+                 nontrivial=True, ok=not carried)
+        if carried:
+            res.find("InputFile", "ui_json", f"previous content of {field} overrides the rules inferred from the new form",
+                     f"{st.module.relpath}:{getattr(rec['carried'], 'lineno', st0.node.lineno)}",
+                     f"{field}[key] keeps what an earlier form put there (the setter cannot tell inferred rules from user-supplied ones): after the form of "
+                     "a parameter is replaced, values are still judged by the old form's types / association / optional rules")
     return res
 
 
